@@ -124,7 +124,7 @@ def judge_cold_threads(case, col):
     ref = z.call("checks.c16", "cold_threads", (0, 0))
     ref1 = z.call("checks.c16", "cold_threads", (0, 1))
     n, variant = case["cold_threads"]
-    for _ in range(20):
+    for _ in range(6):
         got = z.call("checks.c16", "cold_threads", (n, variant))
         for call, results in got.items():
             want = ref.get(call) or ref1.get(call)
